@@ -45,9 +45,109 @@ def shared_tx_in_two_blocks(written):
     return False
 
 
+def arbitrary_blocks(ctx, res):
+    """blocks that the store can hold but that are built freely from the repository's constructors (not consensus-valid):
+    any signature kind in any input, references to the all-zero hash with any index, any number of inputs / outputs,
+    coinbase data of any length; parents and spent outputs exist in the store (its foreign keys). Written in random
+    batches, the file reopened and read after each; against the relational model; monitors: byte-identical content, and
+    the ids of what comes back are the hashes of its encodings (C07)."""
+    from . import gens
+    from .kit import sha256d
+    from skepticoin.datatypes import Block, BlockHeader, BlockSummary, Transaction, Input, Output, OutputReference
+    rng = ctx.rng
+    for si in range(ctx.scale(4, 20)):
+        lines = chain.patch(horizon=-1)
+        path = os.path.join(os.getcwd(), "c08_free_%d.db" % si)
+        if os.path.exists(path):
+            os.remove(path)
+        store = blockstore.BlockStore(path)
+        g = chain.genesis_block()
+        ops = list(lines) + ["store new", "store write " + hx(g.serialize())]
+        impl = ["ok", "ok"] if not lines else ["ok"] * (len(lines) + 2)
+        impl = ["ok"] * len(ops)
+        written = [g]
+        stored_outputs = [(t.hash(), len(t.outputs)) for t in g.transactions if t.outputs]
+        seen_tx = {t.hash() for t in g.transactions}
+        for fi in range(rng.randrange(2, 6)):
+            batch = []
+            new_outputs = []
+            for _ in range(rng.randrange(1, 4)):
+                parent = rng.choice(written + batch)
+                txs = []
+                n_want = rng.randrange(1, 4)        # a block without transactions has no rows to be found by (not storable)
+                while len(txs) < n_want:
+                    ins = []
+                    for _i in range(rng.randrange(0, 4)):
+                        c = rng.random()
+                        if c < 0.45 or not stored_outputs:
+                            ref = OutputReference(b"\x00" * 32, rng.choice([0, 0, 1, 3, 255, rng.randrange(0, 1 << 31)]))
+                        else:
+                            h_, n_ = rng.choice(stored_outputs)
+                            ref = OutputReference(h_, rng.randrange(0, n_))
+                        ins.append(Input(ref, gens.signature(rng)))
+                    outs = [Output(rng.choice([0, 1, rng.randrange(0, 1 << 62)]), gens.pubkey(rng))
+                            for _o in range(rng.randrange(0, 4))]
+                    t = Transaction(ins, outs)
+                    if t.hash() in seen_tx:
+                        continue          # the same transaction in two blocks is the known finding D2, covered in run()
+                    seen_tx.add(t.hash())
+                    txs.append(t)
+                sm = BlockSummary(rng.choice([parent.height + 1, rng.randrange(0, 1 << 31)]), parent.hash(), gens.rb(rng, 32),
+                                  rng.randrange(0, 1 << 32), gens.rb(rng, 32), rng.randrange(0, 1 << 32))
+                b = Block(BlockHeader(sm, gens.evidence(rng)), txs)
+                b = Block.deserialize(b.serialize())             # as obtained from bytes
+                batch.append(b)
+                new_outputs += [(t.hash(), len(t.outputs)) for t in txs if t.outputs]
+            for b in batch:
+                store.add_block_to_buffer(b)
+            try:
+                store.flush_blocks_to_disk()
+                r = "ok"
+            except Exception as e:
+                r = "fail"
+                res.violations.append({"kind": "flushing store-legal blocks raised: %r" % e, "scenario": si,
+                                       "blocks": [x.serialize().hex() for x in batch]})
+            ops.append("store write " + " ".join(hx(b.serialize()) for b in batch))
+            impl.append(r)
+            if r == "ok":
+                written += batch
+                stored_outputs += new_outputs
+            store.close()
+            store = blockstore.BlockStore(path)
+            got = list(store.read_blocks_from_disk())
+            ops.append("store read")
+            impl.append(read_line(got))
+            res.case(("free", si, fi), nontrivial=True)
+            res.count("free_flushes")
+            by_id = {b.hash(): b for b in written}
+            for b in got:
+                w = by_id.get(b.hash())
+                info = {"scenario": si, "block": (w or b).serialize().hex(), "read_back": b.serialize().hex()}
+                if w is None:
+                    res.violations.append({**info, "kind": "a block read back was never written"})
+                    continue
+                if b.serialize() != w.serialize():
+                    res.violations.append({**info, "kind": "a block read back is not byte-identical to the block written"})
+                if b.hash() != sha256d(b.header.serialize()):
+                    res.violations.append({**info, "kind": "a block obtained from the store has an id that is not the hash of its header's encoding"})
+                for t in b.transactions:
+                    if t.hash() != sha256d(t.serialize()):
+                        res.violations.append({**info, "kind": "a transaction obtained from the store has an id that is not the hash of its encoding",
+                                               "transaction": t.serialize().hex(), "id": t.hash().hex()})
+                        break
+            if sorted(b.hash() for b in got) != sorted(by_id):
+                res.violations.append({"kind": "the set of blocks read back differs from the set written", "scenario": si})
+        store.close()
+        os.remove(path)
+        model = ctx.driver.ask(ops)
+        kit.compare(res, ops, impl, model)
+    chain.unpatch()
+
+
 def run(ctx):
     res = kit.Result()
     rng = ctx.rng
+    arbitrary_blocks(ctx, res)
     n_scen = ctx.scale(8, 40)
     for si in range(n_scen):
         lines = chain.patch(horizon=-1)
